@@ -13,6 +13,7 @@ import (
 	"os"
 	"path/filepath"
 	"reflect"
+	"sort"
 	"strings"
 
 	"dawgsverif/fakedb"
@@ -40,7 +41,6 @@ type consumed struct {
 	GraphCount                                 int
 	Graphs                                     []consumedGraph
 	SchemaGraphs                               []string
-	HasMetrics                                 bool
 }
 
 func consumedOf(raw []byte) (consumed, bool) {
@@ -49,12 +49,15 @@ func consumedOf(raw []byte) (consumed, bool) {
 		return consumed{}, false
 	}
 	c := consumed{Format: m.Format, IDStrategy: m.IDStrategy, Compression: string(m.Compression), ScrubMode: string(m.Scrub.Mode),
-		GraphCount: m.Source.GraphCount, HasMetrics: m.Metrics != nil}
+		GraphCount: m.Source.GraphCount}
 	for _, g := range m.Graphs {
 		cg := consumedGraph{Name: g.Name, Nodes: g.NodeCount, Edges: g.EdgeCount}
 		for _, f := range g.Files {
 			cg.Files = append(cg.Files, consumedFile{string(f.Phase), f.Path, f.SHA256, f.Count, f.CompressedBytes, f.UncompressedBytes < 0})
 		}
+		// the order of the file entries within a phase is protected by nothing and does not change the loaded graph
+		// (node-before-edge ordering is enforced by the manifest's own validation): compare them as a set
+		sort.Slice(cg.Files, func(i, j int) bool { return cg.Files[i].Phase+cg.Files[i].Path < cg.Files[j].Phase+cg.Files[j].Path })
 		c.Graphs = append(c.Graphs, cg)
 	}
 	for _, sg := range m.Schema.Graphs {
@@ -381,7 +384,18 @@ func Attack(args []string) {
 		for fi, rel := range e.order {
 			content := e.files[rel]
 			for off := (*seed + fi) % *stride; off < len(content); off += *stride {
-				e.attackDir(fmt.Sprintf("flip %s@%d", rel, off), map[string][]byte{rel: flip(content, off, 1<<uint((off+*seed)%8))}, "")
+				what := fmt.Sprintf("flip %s@%d", rel, off)
+				if rel == "manifest.json" {
+					lo, hi := off-24, off+8
+					if lo < 0 {
+						lo = 0
+					}
+					if hi > len(content) {
+						hi = len(content)
+					}
+					what += " near " + strings.Join(strings.Fields(string(content[lo:hi])), " ")
+				}
+				e.attackDir(what, map[string][]byte{rel: flip(content, off, 1<<uint((off+*seed)%8))}, "")
 			}
 			for l := (*seed * 3) % (*stride * 3); l < len(content); l += *stride * 3 {
 				e.attackDir(fmt.Sprintf("truncate %s to %d", rel, l), map[string][]byte{rel: content[:l]}, "strict")
